@@ -73,7 +73,8 @@ pub fn run(rep: &Report) {
         }
         if !rep.quick() {
             // every triple of the catalogue
-            let core: Vec<&Dev> = devs.iter().collect();
+            // (of the non-digest-shaped strings only the empty one takes part in triples)
+            let core: Vec<&Dev> = devs.iter().filter(|d| !matches!(d, Dev::SdOdd(_, s, _) | Dev::PhOdd(_, s, _) if *s != 0)).collect();
             for i in 0..core.len() {
                 for j in (i + 1)..core.len() {
                     for k in (j + 1)..core.len() {
